@@ -186,6 +186,7 @@ func ReadReplay(path string) (*ReplayFile, error) {
 func (rs *RunSummary) WriteEvidence(path string) error {
 	paths, queries, steps, decisions, lenient := 0, 0, int64(0), 0, 0
 	var solverT time.Duration
+	oneshots, oneshotOK := 0, 0
 	funcs := map[string]bool{}
 	var samples []interface{}
 	verdicts := map[string]int{}
@@ -195,6 +196,8 @@ func (rs *RunSummary) WriteEvidence(path string) error {
 		hr := h.HR
 		paths += hr.Paths
 		queries += hr.Queries
+		oneshots += hr.OneShots
+		oneshotOK += hr.OneShotOK
 		steps += hr.Steps
 		decisions += hr.Decisions
 		lenient += hr.Lenient
@@ -239,7 +242,9 @@ func (rs *RunSummary) WriteEvidence(path string) error {
 		"verdicts":             verdicts,
 		"ssa_instructions_run": steps,
 		"decisions":            decisions,
-		"solver":               rs.Solver,
+		"solver":               rs.Solver + " (incremental, one process per worker); undecided queries re-run one-shot in fresh z3 and cvc5 processes",
+		"oneshot_queries":      oneshots,
+		"oneshot_decided":      oneshotOK,
 		"solver_time_s":        solverT.Seconds(),
 		"functions_encoded":    encoded,
 		"harnesses":            hnames,
